@@ -28,6 +28,30 @@ deriving Repr
 def effCached (nf : Nat) (rep : Int) (cachedIsBool : Bool) (cachedBool : Bool) (cachedInt : Nat) : Bool :=
   (rep != 1) && (if cachedIsBool then cachedBool else decide (nf ≤ cachedInt))
 
+/-- how the `repeat` / `cached` arguments of `ImageIterator(image, repeat, format_spec, cached)` can be wrong -/
+inductive RepArg | ok | zero | notInt
+deriving DecidableEq, Repr
+inductive CachedArg | ok | notInt | nonPos
+deriving DecidableEq, Repr
+
+/-- the argument validation of `ImageIterator.__init__`, in the order the code performs it;
+    `none` = construction goes on (and only then is an image opened) -/
+def initCheck (isImage animated : Bool) (rep : RepArg) (specIsStr specValid : Bool) (cached : CachedArg) :
+    Option String :=
+  if !isImage then some "TypeError"            -- not isinstance(image, BaseImage)
+  else if !animated then some "ValueError"     -- not image._is_animated
+  else if rep = .notInt then some "TypeError"
+  else if rep = .zero then some "ValueError"   -- if not repeat
+  else if !specIsStr then some "TypeError"
+  else if !specValid then some "ValueError"    -- image._check_format_spec(format_spec)
+  else if cached = .notInt then some "TypeError"
+  else if cached = .nonPos then some "ValueError"   -- if False is not cached <= 0
+  else none
+
+/-- `BaseImage.__init__`: `isinstance(image, Image.Image)`, then `0 in image.size` -/
+def imageCheck (isPil nonNull : Bool) : Option String :=
+  if !isPil then some "TypeError" else if !nonNull then some "ValueError" else none
+
 /-- suspension points of the generator `_animate` -/
 inductive Pc
   | fresh   -- created, not started
@@ -142,6 +166,7 @@ end
 inductive Op
   | next
   | seek (p : Int)        -- ImageIterator.seek
+  | seekBad               -- ImageIterator.seek with a non-integer: `raise arg_type_error("pos", pos)`
   | close                 -- ImageIterator.close
   | setSize (s : Nat)     -- the image's size is changed between two frames
   | imgSeek (k : Int)     -- BaseImage.seek (documented not to affect iteration)
@@ -183,6 +208,7 @@ def step (st : St α) : Op → St α × Ans α
         | .yielded _ => ({ st with gen := some o.gen, seekPos := o.seekPos, loopNo := o.loopNo }, .ok)
         | .returned => ({ st with gen := some o.gen, seekPos := o.seekPos, loopNo := o.loopNo }, .err "StopIteration")
         | .nofuel => (st, .err "nofuel")
+  | .seekBad => (st, .err "TypeError")
   | .close => ({ st with gen := none }, .ok)
   | .setSize s => ({ st with size := s }, .ok)
   | .imgSeek k =>
@@ -243,6 +269,7 @@ def specStep (sp : Sp) : Op → Sp × Ans α
     else if sp.closed then (sp, .err "TermImageError")
     else if !sp.started then (sp, .err "TermImageError")
     else ({ sp with nxt := p.toNat }, .ok)
+  | .seekBad => (sp, .err "TypeError")
   | .close => ({ sp with closed := true }, .ok)
   | .setSize s => ({ sp with size := s }, .ok)
   | .imgSeek k =>
